@@ -8,7 +8,7 @@ SA = dict(unit="mfsd_attr_u.c", file="mfhdf/src/mfsd.c", objbits=8, cex_unwind=2
                    "NC_new_array / NC_incr_array (append into pre-allocated room; may fail)", "DFKNTsize (ghost size or FAIL)",
                    "NC_hlookupvar (ghost coordinate variable)", "memcpy with symbolic length: sparse model (first/last/ghost byte)"])
 
-# full domain: FAILS on the real code -- append path, NC_new_attr returns NULL: `attr->HDFtype = nt` precedes the NULL test (mfsd.c:1450)
+# full domain (failed on the tree as found -- append path, NC_new_attr returns NULL: `attr->HDFtype = nt` preceded the NULL test; D55, repaired)
 ob("SDIputattr", ["C10"], entry="h_SDIputattr", enforce="SDIputattr", **SA)
 # the same contract on the complement of that input (constructor failure on the append path excluded)
 ob("SDIputattr_mem", ["C10"], entry="h_SDIputattr_mem", enforce="SDIputattr", **SA)
@@ -16,3 +16,14 @@ ob("SDIputattr_mem", ["C10"], entry="h_SDIputattr_mem", enforce="SDIputattr", **
 ob("SDsetattr", ["C10"], entry="h_SDsetattr", enforce="SDsetattr", replace=["SDIgetcoordvar"], **SA)
 ob("SDattrinfo", ["C10"], entry="h_SDattrinfo", enforce="SDattrinfo", replace=["SDIgetcoordvar"], **SA)
 ob("SDreadattr", ["C10"], entry="h_SDreadattr", enforce="SDreadattr", replace=["SDIgetcoordvar"], **SA)
+
+# persistence of one attribute: hdf_write_attr then hdf_read_attrs (cdf.c), V layer as a ghost Vdata header.
+# (failed on the tree as found, D56, repaired:) a DFNT_UCHAR8 attribute with count > 1 is written as `count` records of order 1 (only DFNT_CHAR8 is
+# written as one record of order `count`), but was read back as NC_CHAR whose count was taken from the field order -> count 1
+CD = dict(unit="mfsd_attr_cdf_u.c", file="mfhdf/src/cdf.c", mode="bounded",
+          bound="one attribute Vdata in the Vgroup (loop of hdf_read_attrs unwound once)", unwind=10, cex_unwind=10, objbits=8,
+          trusted=["VHstoredatam/Vntagrefs/Vgettagref/VSattach/VSgetclass/VSinquire/VFfieldtype/VFfieldorder/VSsetfields/VSread/VSdetach "
+                   "(ghost Vdata header: n records, one field of `order` values of `type`)", "NC_new_attr/NC_new_array/NC_free_array (log)"])
+ob("attr_reopen_b", ["C10"], entry="h_attr_reopen", **CD)
+# the same checks on the complement of that input
+ob("attr_reopen_rest_b", ["C10"], entry="h_attr_reopen_rest", **CD)
